@@ -115,6 +115,11 @@ var descHolders = []descHolder{
 	{"var o=hgo('go_array');", "1", false},
 	{"var o=hgo('go_array');", "length", false},
 	{"var o=hgo('go_func');", "length", false},
+	{"var o=hgo('go_map_named_key');", "a", false},
+	{"var o=hgo('go_map_named_key');", "zz", false},
+	{"var o=hgo('go_map_iface_key');", "a", false},
+	{"var o=hgo('go_map_nan_key');", "NaN", false},
+	{"var o=hgo('go_nil_embedded');", "X", false},
 	{"var o=hgo('go_ptr_array');", "0", false},
 	{"var o=hgo('go_ptr_array');", "9", false},
 	{"var o=hgo('go_ptr_array_iface');", "1", false},
@@ -461,7 +466,7 @@ func execNestProbe(c *FSCase, st *Stats) (*Violation, interface{}, bool) {
 // bridgeProgs: script callbacks driven by reflection-bridged Go functions, ending
 // in every way a function can end, with and without a script try around the call.
 func bridgeProgs() []string {
-	ends := []string{"return x", "throw 'boom'", "throw 7", "throw undefined", "throw null", "throw {a:1}", "throw new TypeError('t')", "throw __mk('trap')",
+	ends := []string{"return hgo('go_func_named_int')(3)", "return hgo('go_func_named_map')({a:1})", "return hgo('go_func_named_int')('x')", "return hgo('go_variadic')(1,'a','b')", "return hgo('go_func_err')(1)", "return hgo('go_named_float32')+1", "return x", "throw 'boom'", "throw 7", "throw undefined", "throw null", "throw {a:1}", "throw new TypeError('t')", "throw __mk('trap')",
 		"return {}", "return 'str'", "return undefined", "return 1.5", "return heach(1,function(y){throw 'inner'})", "null.x", "hpanic()", "(function r(){r()})()"}
 	var out []string
 	for _, e := range ends {
